@@ -803,3 +803,24 @@ Proof.
     rewrite Z.abs_neq by lia. replace (- i * step v) with (i * - step v) by ring.
     rewrite Z.div_mul by lia. reflexivity.
 Qed.
+
+(** * the three realisations of a view (str / bytes / index array)
+
+    [SeqDataView.str_value], [bytes_value] and [array_value] execute the same
+    two slices on three representations of the parent that are element-wise
+    images of one another ([get_seq_bytes] = encode of [get_seq_str],
+    [get_seq_array] = alphabet indices of it).  The model's [sdv_value] and
+    [value] are polymorphic in the element type, so one definition covers the
+    three routes, and they commute with any element-wise map: *)
+Lemma sdv_value_map {A B} (f : A -> B) v (p : list A) : sdv_value v (map f p) = map f (sdv_value v p).
+Proof.
+  unfold sdv_value. rewrite py_slice_map. destruct (step v =? 1); [reflexivity|apply py_slice_map].
+Qed.
+
+Lemma value_map {A B} (f : A -> B) v (p : list A) : value v (map f p) = map f (value v p).
+Proof. unfold value. apply py_slice_map. Qed.
+
+Lemma sdv_routes_agree_lemma {A B} (f : A -> B) v (p : list A) :
+  WF v -> zlen p = seq_len v -> offset v = 0 ->
+  sdv_value v (map f p) = map f (value v p).
+Proof. intros Hwf Hp Ho. rewrite sdv_value_map. f_equal. now apply sdv_value_lemma. Qed.
